@@ -32,6 +32,7 @@ type c15AbsTable struct {
 	Nr   int        `json:"nr"`
 	Nc   int        `json:"nc"`
 	Hdr  bool       `json:"hdr"`
+	Hm   string     `json:"hm"`
 	Kind [][]string `json:"kind"`
 	M    struct {
 		R  int `json:"r"`
@@ -44,7 +45,31 @@ type c15AbsTable struct {
 func c15RandTable(rnd *rand.Rand) (c15AbsTable, c15El) {
 	kinds := []string{"plain", "plain", "plain", "pipe", "nl", "empty", "padded", "uni"}
 	var t c15AbsTable
-	t.Nr, t.Nc, t.Hdr = 1+rnd.Intn(5), 1+rnd.Intn(5), rnd.Intn(2) == 0
+	t.Nr, t.Nc = 1+rnd.Intn(5), 1+rnd.Intn(5)
+	marks := []string{"none", "first", "all"}
+	if t.Nr >= 2 {
+		marks = append(marks, "lead2", "mid")
+	}
+	if t.Nr >= 3 {
+		marks = append(marks, "lead3")
+	}
+	t.Hm = marks[rnd.Intn(len(marks))]
+	var hrows []int
+	switch t.Hm {
+	case "first":
+		hrows = []int{1}
+	case "lead2":
+		hrows = []int{1, 2}
+	case "lead3":
+		hrows = []int{1, 2, 3}
+	case "mid":
+		hrows = []int{2}
+	case "all":
+		for r := 1; r <= t.Nr; r++ {
+			hrows = append(hrows, r)
+		}
+	}
+	t.Hdr = len(hrows) > 0 && hrows[0] == 1
 	t.M.Rs, t.M.Cs = 1, 1
 	if rnd.Intn(2) == 0 && t.Nr >= 2 && t.Nc >= 2 {
 		// a merge that leaves no row and no column fully covered
@@ -59,7 +84,7 @@ func c15RandTable(rnd *rand.Rand) (c15AbsTable, c15El) {
 			}
 		}
 	}
-	el := c15El{T: "table", Nr: t.Nr, Nc: t.Nc, Hdr: t.Hdr, Merged: t.M.R > 0}
+	el := c15El{T: "table", Nr: t.Nr, Nc: t.Nc, Hdr: t.Hdr, Hm: t.Hm, Hrows: hrows, Merged: t.M.R > 0}
 	for r := 1; r <= t.Nr; r++ {
 		var krow []string
 		var srow []c15SrcCell
